@@ -34,6 +34,9 @@ structure S where
   refFeeders : List (Bytes × Bool) := []
   iStore : List Price := []
   lastEnd : Option (Nat × Nat) := none
+  band : BandSt := {}          -- the model's request registry (follows the implementation's acknowledgements)
+  refBand : BandSt := {}       -- the reference's own registry: what each request id was acknowledged FOR
+  mult : Nat := 6
   deriving Inhabited
 
 def priceJson (p : Price) : Json :=
@@ -179,7 +182,7 @@ def handle (s : S) (i : Nat) (j : Json) : S × List Json :=
   | some "c16.begin" =>
     match fInt? j "expiry", fInt? j "life", fStr? j "authority" with
     | some e, some l, some auth =>
-      ({ model := { params := ⟨e.toNat, l.toNat⟩, authority := sb auth } }, [verdictOk i])
+      ({ model := { params := ⟨e.toNat, l.toNat⟩, authority := sb auth }, mult := ((fInt? j "mult").getD 6).toNat }, [verdictOk i])
     | _, _, _ => (s, [verdictBad i "c16.begin fields"])
   | some "stats" => (s, [])
   | some "c16.op" =>
@@ -229,6 +232,31 @@ def handle (s : S) (i : Nat) (j : Json) : S × List Json :=
           let diffs := (if res != "ok" then [verdictDiff i "result" "ok" res] else []) ++ storeDiff i m' store
           finish i { s with model := resync m' store, ref := ref', iStore := store, lastEnd := some (time.toNat, h.toNat) } diffs
         | _ => (s, [verdictBad i "c16 endblock fields"])
+      | "bandack" =>
+        match fInt? j "reqId", parseStrs (fld j "symbols"), parseStore (fld j "store") with
+        | some id, some syms, some store =>
+          let ok := res == "ok"
+          let b' := bandAck s.band id.toNat (syms.map sb)
+          let diffs := (if !ok then [verdictDiff i "result" "ok" res] else []) ++ storeDiff i s.model store
+          finish i { s with band := (if ok then b' else s.band), refBand := (if ok then bandAck s.refBand id.toNat (syms.map sb) else s.refBand),
+                            model := resync s.model store, iStore := store } diffs
+        | _, _, _ => (s, [verdictBad i "c16 bandack fields"])
+      | "bandanswer" =>
+        match fInt? j "reqId", parseStrs (fld j "rates"), parseStore (fld j "store") with
+        | some id, some ratesS, some store =>
+          let rates : List Int := ratesS.map (fun x => (x.toInt?).getD 0)
+          let r := bandAnswer s.model s.band id.toNat rates s.mult time h
+          let m' := r.getD s.model
+          let ok := res == "ok"
+          -- the reference: the rates of request `id` are prices of the symbols `id` was acknowledged for - nothing else is written
+          let ref' := match (if ok then s.refBand.reqs.lookup id.toNat else none) with
+            | some syms => if syms.length == rates.length then (bandPrices syms rates s.mult time h).foldl refWrite s.ref else s.ref
+            | none => s.ref
+          let diffs := (if r.isSome != ok then [verdictDiff i "result" (if r.isSome then "ok" else "fail") res] else []) ++ storeDiff i m' store
+          let viols := if !ok && store != s.iStore then
+              [verdictViol i "C16.feeder_gate" (Json.mkObj [("op", op), ("why", "a refused BandChain answer changed the price store")])] else []
+          finish i { s with model := resync m' store, ref := ref', iStore := store } (diffs ++ viols)
+        | _, _, _ => (s, [verdictBad i "c16 bandanswer fields"])
       | "get" =>
         match fStr? j "asset", parseAns j with
         | some askedS, some ans =>
